@@ -135,7 +135,7 @@ fn check_last_op(prog: &Rc<Prog>, setup: &Setup, hist: &[Op], stats: &mut Stats)
         // run to the end. It is ONE continue: every change made in any slice is notified once,
         // with the value the variable has when the continue completes.
         if matches!(last, Op::Cont) && r.starts_with("ok") && bad.is_none() {
-            'budgets: for k in [1u64, 2, 3, 5, 8, 13] {
+            'budgets: for k in [1u64, 2, 3, 5, 8] {
                 let Ok((mut i2, _)) = Inst::build(prog, setup, pre) else { break };
                 let m0 = i2.events_raw().len();
                 let mut pending = false;
@@ -239,7 +239,7 @@ fn check_last_op(prog: &Rc<Prog>, setup: &Setup, hist: &[Op], stats: &mut Stats)
 pub fn run(tier: Tier) -> i32 {
     let started = std::time::Instant::now();
     let (h, k, a, secs) = match tier {
-        Tier::Quick => (4, 2, 12, 45),
+        Tier::Quick => (4, 2, 9, 45),
         Tier::Thorough => (5, 3, 16, 1800),
     };
     let set = program_set(k, a, 0);
